@@ -74,11 +74,14 @@ def notifiesFor (js : JS) (k : Nat) : List Notify :=
   | some s => js.seen.filter (fun n => n.hdrs.sid == some s)
   | none => []
 
-/-- callbacks: every NOTIFY for the granted SID was applied exactly once (live or replayed), nothing else —
-    a service without a granted SID has seen no callback at all -/
+/-- callbacks ("affect no service"): a service has seen NO callback unless NOTIFYs arrived for the SID granted to
+    it, and never more callbacks than such NOTIFYs; how many callbacks report a replayed backlog (one per NOTIFY
+    or one for all) is not stated by the text and left to the model comparison (audit C11-2) -/
+def cbCountOk (c n : Nat) : Bool := decide (c ≤ n) && (n == 0 || decide (1 ≤ c))
+
 def cbsOkAux (js : JS) : Nat → List Nat → Bool
   | _, [] => true
-  | k, c :: r => c == (notifiesFor js k).length && cbsOkAux js (k + 1) r
+  | k, c :: r => cbCountOk c (notifiesFor js k).length && cbsOkAux js (k + 1) r
 
 /-- the text of `x` in the latest NOTIFY for `sid` that carried it -/
 def latestText (x : Str) (sid : Str) (seen : List Notify) : Option Str :=
